@@ -53,6 +53,15 @@ CHECKS = {
    technique="deterministic simulation: seeded model-based StateDB histories with snapshots/reverts, commit, cold reopen from the simulated disk, crash before flush and Copy; map model with deep-copy snapshot stack and independent reference state root; cross-history root comparison",
    text="After every operation every getter (existence, emptiness, balance, nonce, code, code hash/size, storage slots, self-destruct flag, refund, log count) must equal the model, so a revert that restores anything inexactly shows at the very next step; every root (IntermediateRoot, Commit) must equal the reference Merkle-Patricia root of the content with the account RLP encoded independently; a state reopened cold from the disk or taken by Copy must read identically and stay independent; an unflushed root must not open after a crash; a second, permuted and revert-padded history reaching the same content must give the same root.",
    note="Trusted: harness, reference model and root. One finalise flag per history (mixing empty-account deletion on/off inside one history makes the outcome depend on the protocol's touched set, which is not content)."),
+
+ "C05": dict(engine="chainsim", category="exploration", design_ref="§3 C05",
+   technique="deterministic simulation: conservation monitor (total supply from an independent state traversal) evaluated after every transaction and block of every seeded history on every node, against an independently written reward schedule",
+   text="Seeded universes with value transfers, contract calls that forward, revert, run out of gas, create, fail to create and self-destruct (to an account, to itself, to a fresh address), uncles, HF4-listed genesis allocations and every fork mode. The supply never rises while transactions execute, falls only in a self-destruct, grows per block by exactly 1 AQUA + uncle rewards (+1/32 per uncle), HF4 only lowers it, finalisation around height 42,000,000 pays nothing; every node in every history (restarts, crash-restarts, reorganisations) holds the oracle's supply at every block it imports.",
+   note="Trusted: harness, reference traversal, the reward function written from the statement. The quantifier over programs is sampled by hand-assembled templates; the 42,000,000 cut-off is exercised through Engine.Finalize on synthetic headers because a chain of that length cannot be built."),
+ "C06": dict(engine="chainsim", category="exploration", design_ref="§3 C06",
+   technique="deterministic simulation: per-transaction equations on the oracle replay, exactly-once account ledger folded over the canonical chain of every node after every operation of seeded histories (reorganisations, restarts, crashes), Byzantine blocks with one invalid transaction",
+   text="Per transaction: nonce +1, sender -gasUsed x price - value (iff success), coinbase +gasUsed x price, gas between the intrinsic floor and the limit, gas of the storage template equal to a reference evaluator including the half-of-consumed refund cap, failed executions leave no storage, log or code, receipts in the fork's format, cumulative gas = sum = header <= limit. Per history: at every head, every account's nonce and balance equal an independent ledger (template effects, fees, block and uncle rewards) folded over the canonical chain, so a transaction applied twice, not rolled back or charged on an abandoned branch shows. Blocks with a wrong-nonce, unaffordable, under-intrinsic or over-remainder transaction are rejected leaving the node unchanged.",
+   note="Trusted: harness, the ledger and gas reference. 'intrinsic <= gasUsed' is judged before the refund (the reported figure may legally drop to half the consumed gas); fields/programs are sampled by generators with boundary cases generated on purpose."),
 }
 
 def main():
